@@ -9,6 +9,7 @@ import NdcubeModel.Model.Fits
 import NdcubeModel.Model.Uncert
 import NdcubeModel.Model.Coords
 import NdcubeModel.Model.ExtraCoords
+import NdcubeModel.Model.Crop
 
 /-!
 # Line-protocol driver
@@ -625,6 +626,38 @@ def opSliceChain (j : Json) : R Json := do
         Json.mkObj [("axis", natJson p.1), ("value", symJson p.2)]) st.wcsDropped),
     ("internal", listJson (fun (p : String × String) => Json.arr #[.str p.1, .str p.2]) st.gc.internal)]
 
+/-! ## ops `crop` / `crop_item` (C04, C18) -/
+
+def asOptRat (j : Json) : R (Option Rat) :=
+  match j with
+  | .null => pure none
+  | _ => (asRat j).map some
+
+def affineWcs (A : List (List Rat)) (b : List Rat) (Ainv : List (List Rat)) (pixDim : Nat)
+    (corr : List (List Bool)) : LLWcs Rat :=
+  { pixDim := pixDim, worldDim := A.length
+    p2w := fun q => List.zipWith (· + ·) (A.map fun row => dot row q) b
+    w2p := fun wv => Ainv.map fun row => dot row (List.zipWith (· - ·) wv b)
+    corr := corr, shape := none }
+
+def opCrop (j : Json) : R Json := do
+  let A ← field j "A" >>= asList (asList asRat)
+  let b ← field j "b" >>= asList asRat
+  let Ainv ← field j "Ainv" >>= asList (asList asRat)
+  let pixDim ← field j "pixDim" >>= asNat
+  let corr ← field j "corr" >>= asList (asList asBool)
+  let points ← field j "points" >>= asList (asList asOptRat)
+  let keepdims ← field j "keepdims" >>= asBool
+  let shape ← field j "shape" >>= asList asNat
+  let w := affineWcs A b Ainv pixDim corr
+  pure <| Json.mkObj [("item", exceptJson (listJson itemJson) (cropPoints w shape points keepdims))]
+
+def opCropItem (j : Json) : R Json := do
+  let per ← field j "per" >>= asList (asList asInt)
+  let keepdims ← field j "keepdims" >>= asBool
+  let shape ← field j "shape" >>= asList asNat
+  pure <| Json.mkObj [("item", exceptJson (listJson itemJson) (cropItem shape per keepdims))]
+
 def dispatch (j : Json) : R Json := do
   let op ← field j "op" >>= asStr
   match op with
@@ -644,6 +677,8 @@ def dispatch (j : Json) : R Json := do
   | "uncert" => opUncert j
   | "world_coords" => opWorldCoords j
   | "slice_chain" => opSliceChain j
+  | "crop" => opCrop j
+  | "crop_item" => opCropItem j
   | _ => .error s!"unknown op {op}"
 
 def handleLine (line : String) : String :=
